@@ -50,6 +50,9 @@ type world struct {
 	held       map[string]int
 	lockTrouble []string // lock-discipline problems seen by the store itself
 	sched      *scheduler
+	// C08: request index -> id whose next Lock by that request fails (the lock is then NOT taken)
+	lockFaults map[int]string
+	curReq     int // the request running (sequential runs)
 }
 
 func jmap(x interface{}) J {
@@ -210,6 +213,27 @@ type fakeDB struct{ w *world }
 func (d fakeDB) Lock(c context.Context, id *url.URL) error {
 	if d.w.call("lock", true, us(id)) {
 		return d.w.failed()
+	}
+	if d.w.lockFaults != nil {
+		req := d.w.curReq
+		if d.w.sched != nil {
+			d.w.sched.mu.Lock()
+			if me, ok := d.w.sched.me(); ok {
+				req = me
+			}
+			d.w.sched.mu.Unlock()
+		}
+		d.w.mu.Lock()
+		k, hit := d.w.lockFaults[req]
+		if hit && k == fmt.Sprint(us(id)) {
+			delete(d.w.lockFaults, req)
+		} else {
+			hit = false
+		}
+		d.w.mu.Unlock()
+		if hit {
+			return d.w.failed()
+		}
 	}
 	if d.w.sched != nil {
 		d.w.sched.acquire(fmt.Sprint(us(id)))
